@@ -100,6 +100,8 @@ func h14Make(variant, fv int) *h14Setup {
 		table, row = "a", ".name" // residue of several fields: b, c and .fullname
 	case 6:
 		table = "a" // the residue is the rest of the file configuration alone (b, c): empty until such a key appears
+	case 7:
+		table, col = "a", ".config" // columns keyed by the rest of the file configuration, which may be empty at first
 	}
 	filter, err := benchproc.NewFilter(h14Filters[fv])
 	if err != nil {
